@@ -149,15 +149,31 @@ theorem mapValOf_good {Q : Line → Prop} (hQ : ∀ l, GoodLine l → Q l) (m : 
   · exact ⟨allLay_lit _ (by decide), allQ_nil⟩
   · exact ⟨allLay_nil, AllQ.cons (hQ _ (emptyMapLine_good _)) allQ_nil⟩
 
-theorem variantVal_good {Q : Line → Prop} (hQ : ∀ l, GoodLine l → Q l) (m : Nat) {N n : List Char} (hn : KeyTok N n) {r : List Char × List Line × Bool}
-    (hr : AllLay r.1 ∧ AllQ Q r.2.1) : AllLay (variantVal m N r).1 ∧ AllQ Q (variantVal m N r).2.1 := by
-  simp only [variantVal, List.append_assoc, List.singleton_append]
-  exact ⟨allLay_nil, AllQ.cons (hQ _ (keyLine_good hn hr.1)) hr.2⟩
+theorem variantVal_good {Q : Line → Prop} (hQ : ∀ l, GoodLine l → Q l) (m : Nat) {N n : List Char} (hn : KeyTok N n) {r ri : List Char × List Line × Bool}
+    (hr : AllLay r.1 ∧ AllQ Q r.2.1) (hri : AllLay ri.1 ∧ AllQ Q ri.2.1) :
+    AllLay (variantVal m N r ri).1 ∧ AllQ Q (variantVal m N r ri).2.1 := by
+  cases hfit : fitsImplicit N
+  · simp only [variantVal, hfit, Bool.false_eq_true, if_false, List.cons_append, List.nil_append]
+    exact ⟨allLay_nil, AllQ.cons (hQ _ (questionLine_good (allLay_key hn))) (AllQ.cons (hQ _ (colonLine_good hri.1)) hri.2)⟩
+  · simp only [variantVal, hfit, if_true, List.append_assoc, List.singleton_append]
+    exact ⟨allLay_nil, AllQ.cons (hQ _ (keyLine_good hn hr.1)) hr.2⟩
 
-theorem variantItem_good {Q : Line → Prop} {N n : List Char} (hn : KeyTok N n) {r : List Char × List Line × Bool}
-    (hr : AllLay r.1 ∧ AllQ Q r.2.1) : AllLay (variantItem N r).1 ∧ AllQ Q (variantItem N r).2.1 := by
-  simp only [variantItem]
-  exact ⟨((allLay_key hn).append (allLay_lit [':'] (by decide))).append hr.1, hr.2⟩
+theorem variantItem_good {Q : Line → Prop} (hQ : ∀ l, GoodLine l → Q l) (c : Nat) {N n : List Char} (hn : KeyTok N n) {r ri : List Char × List Line × Bool}
+    (hr : AllLay r.1 ∧ AllQ Q r.2.1) (hri : AllLay ri.1 ∧ AllQ Q ri.2.1) :
+    AllLay (variantItem c N r ri).1 ∧ AllQ Q (variantItem c N r ri).2.1 := by
+  cases hfit : fitsImplicit N
+  · simp only [variantItem, hfit, Bool.false_eq_true, if_false, List.cons_append, List.nil_append]
+    exact ⟨(allLay_lit ['?', ' '] (by decide)).append (allLay_key hn), AllQ.cons (hQ _ (colonLine_good hri.1)) hri.2⟩
+  · simp only [variantItem, hfit, if_true]
+    exact ⟨((allLay_key hn).append (allLay_lit [':'] (by decide))).append hr.1, hr.2⟩
+
+theorem variantRoot_good {Q : Line → Prop} (hQ : ∀ l, GoodLine l → Q l) {N n : List Char} (hn : KeyTok N n) {r ri : List Char × List Line × Bool}
+    (hr : AllLay r.1 ∧ AllQ Q r.2.1) (hri : AllLay ri.1 ∧ AllQ Q ri.2.1) : AllQ Q (variantRoot N r ri) := by
+  cases hfit : fitsImplicit N
+  · simp only [variantRoot, hfit, Bool.false_eq_true, if_false, List.cons_append, List.nil_append]
+    exact AllQ.cons (hQ _ (questionLine_good (allLay_key hn))) (AllQ.cons (hQ _ (colonLine_good hri.1)) hri.2)
+  · simp only [variantRoot, hfit, if_true, List.append_assoc, List.singleton_append]
+    exact AllQ.cons (hQ _ (keyLine_good hn hr.1)) hr.2
 
 theorem allLay_sp {t : List Char} (h : AllLay t) : AllLay (' ' :: t) :=
   AllLay.append (a := [' ']) (allLay_lit _ (by decide)) h
@@ -185,15 +201,17 @@ theorem lay_val_good {P : LeafPred} {T : Toks} {k : Nat} {Q : Line → Prop} (hQ
   | .newtypeVariant n v, hv, m, lvb => by
     simp only [inFragP, Bool.and_eq_true] at hv
     simp only [layVal]
-    exact variantVal_good hQ _ (hr.name n hv.1) (lay_val_good hQ hr hb cp true v hv.2 _ lvb)
+    exact variantVal_good hQ _ (hr.name n hv.1) (lay_val_good hQ hr hb cp true v hv.2 _ lvb) (lay_item_good hQ hr hb cp v hv.2 _ lvb)
   | .tupleVariant n xs, hv, m, lvb => by
     simp only [inFragP, Bool.and_eq_true] at hv
     simp only [layVal]
     exact variantVal_good hQ _ (hr.name n hv.1) (seqValOf_good _ (lay_items_good hQ hr hb cp xs hv.2 _ false))
+      (lay_seqItem_good hQ hr hb cp xs hv.2 _ lvb)
   | .structVariant n fs, hv, m, lvb => by
     simp only [inFragP, Bool.and_eq_true] at hv
     simp only [layVal]
     exact variantVal_good hQ _ (hr.name n hv.1) (mapValOf_good hQ _ _ _ (lay_entries_good hQ hr hb cp fs hv.2.1 _ false))
+      (lay_mapItem_good hQ hr hb cp fs hv.2.1 _ lvb)
   | .seq xs, hv, m, lvb => by
     simp only [inFragP] at hv
     simp only [layVal]
@@ -234,58 +252,71 @@ theorem lay_item_good {P : LeafPred} {T : Toks} {k : Nat} {Q : Line → Prop} (h
   | .newtypeVariant n v, hv, d, lvb => by
     simp only [inFragP, Bool.and_eq_true] at hv
     simp only [layItem]
-    exact variantItem_good (hr.name n hv.1) (lay_val_good hQ hr hb cp true v hv.2 _ lvb)
+    exact variantItem_good hQ _ (hr.name n hv.1) (lay_val_good hQ hr hb cp true v hv.2 _ lvb) (lay_item_good hQ hr hb cp v hv.2 _ lvb)
   | .tupleVariant n xs, hv, d, lvb => by
     simp only [inFragP, Bool.and_eq_true] at hv
     simp only [layItem]
-    exact variantItem_good (hr.name n hv.1) (seqValOf_good _ (lay_items_good hQ hr hb cp xs hv.2 _ false))
+    exact variantItem_good hQ _ (hr.name n hv.1) (seqValOf_good _ (lay_items_good hQ hr hb cp xs hv.2 _ false))
+      (lay_seqItem_good hQ hr hb cp xs hv.2 _ lvb)
   | .structVariant n fs, hv, d, lvb => by
     simp only [inFragP, Bool.and_eq_true] at hv
     simp only [layItem]
-    exact variantItem_good (hr.name n hv.1) (mapValOf_good hQ _ _ _ (lay_entries_good hQ hr hb cp fs hv.2.1 _ false))
-  | .seq [], _, d, lvb => by simp only [layItem, laySeqItem]; exact ⟨allLay_lit _ (by decide), allQ_nil⟩
-  | .seq (x :: xs'), hv, d, lvb => by
-    simp only [inFragP, inFragListP, Bool.and_eq_true] at hv
-    obtain ⟨h1, h2⟩ := lay_item_good hQ hr hb cp x hv.1 (d + 2) lvb
-    have h3 := lay_items_good hQ hr hb cp xs' hv.2 (d + 2) (layItem T k cp (d + 2) lvb x).2.2
-    simp only [layItem, laySeqItem]
-    exact ⟨(allLay_lit ['-', ' '] (by decide)).append h1, h2.append h3⟩
-  | .tuple [], _, d, lvb => by simp only [layItem, laySeqItem]; exact ⟨allLay_lit _ (by decide), allQ_nil⟩
-  | .tuple (x :: xs'), hv, d, lvb => by
-    simp only [inFragP, inFragListP, Bool.and_eq_true] at hv
-    obtain ⟨h1, h2⟩ := lay_item_good hQ hr hb cp x hv.1 (d + 2) lvb
-    have h3 := lay_items_good hQ hr hb cp xs' hv.2 (d + 2) (layItem T k cp (d + 2) lvb x).2.2
-    simp only [layItem, laySeqItem]
-    exact ⟨(allLay_lit ['-', ' '] (by decide)).append h1, h2.append h3⟩
-  | .tupleStruct [], _, d, lvb => by simp only [layItem, laySeqItem]; exact ⟨allLay_lit _ (by decide), allQ_nil⟩
-  | .tupleStruct (x :: xs'), hv, d, lvb => by
-    simp only [inFragP, inFragListP, Bool.and_eq_true] at hv
-    obtain ⟨h1, h2⟩ := lay_item_good hQ hr hb cp x hv.1 (d + 2) lvb
-    have h3 := lay_items_good hQ hr hb cp xs' hv.2 (d + 2) (layItem T k cp (d + 2) lvb x).2.2
-    simp only [layItem, laySeqItem]
-    exact ⟨(allLay_lit ['-', ' '] (by decide)).append h1, h2.append h3⟩
-  | .map known [], _, d, lvb => by simp only [layItem, layMapItem]; exact ⟨allLay_lit _ (by decide), allQ_nil⟩
-  | .map known ((kk, v) :: es'), hv, d, lvb => by
-    simp only [inFragP, inFragEntriesP, Bool.and_eq_true, Bool.or_eq_true] at hv
-    rcases hv.1.1.1 with hsk | hck
-    · obtain ⟨kt, rfl, hkt⟩ := keyOk_iff hsk
-      obtain ⟨h1, h2⟩ := lay_val_good hQ hr hb cp true v hv.1.1.2 (d + 2) false
-      have h3 := lay_entries_good hQ hr hb cp es' hv.1.2 (d + 2) (layVal T k cp true (d + 2) false v).2.2
-      simp only [layItem, layMapItem, keyOf]
-      exact ⟨((allLay_key (hr.key kt hkt)).append (allLay_lit [':'] (by decide))).append h1, h2.append h3⟩
-    · obtain ⟨hk1, hk2⟩ := lay_item_good hQ hr hb cp kk hck.2 (d + 2) false
-      obtain ⟨h1, h2⟩ := lay_item_good hQ hr hb cp v hv.1.1.2 (d + 2) false
-      have h3 := lay_entries_good hQ hr hb cp es' hv.1.2 (d + 2) (layItem T k cp (d + 2) false v).2.2
-      simp only [layItem, layMapItem, keyOf_complex' kk hck.1]
-      refine ⟨(allLay_lit ['?', ' '] (by decide)).append hk1, ?_⟩
-      have := hk2.append (AllQ.cons (hQ _ (colonLine_good (i := d + 2) h1)) (h2.append h3))
-      simpa [List.append_assoc] using this
+    exact variantItem_good hQ _ (hr.name n hv.1) (mapValOf_good hQ _ _ _ (lay_entries_good hQ hr hb cp fs hv.2.1 _ false))
+      (lay_mapItem_good hQ hr hb cp fs hv.2.1 _ lvb)
+  | .seq xs, hv, d, lvb => by
+    simp only [inFragP] at hv
+    simp only [layItem]; exact lay_seqItem_good hQ hr hb cp xs hv d lvb
+  | .tuple xs, hv, d, lvb => by
+    simp only [inFragP] at hv
+    simp only [layItem]; exact lay_seqItem_good hQ hr hb cp xs hv d lvb
+  | .tupleStruct xs, hv, d, lvb => by
+    simp only [inFragP] at hv
+    simp only [layItem]; exact lay_seqItem_good hQ hr hb cp xs hv d lvb
+  | .map known es, hv, d, lvb => by
+    simp only [inFragP, Bool.and_eq_true] at hv
+    simp only [layItem]; exact lay_mapItem_good hQ hr hb cp es hv.1 d lvb
   | .flowSeq _, hv, _, _ => by simp [inFragP] at hv
   | .flowMap _, hv, _, _ => by simp [inFragP] at hv
   | .commented _ _, hv, _, _ => by simp [inFragP] at hv
   | .spaceAfter _, hv, _, _ => by simp [inFragP] at hv
   | .litStr _, hv, _, _ => by simp [inFragP] at hv
   | .foldStr _, hv, _, _ => by simp [inFragP] at hv
+theorem lay_seqItem_good {P : LeafPred} {T : Toks} {k : Nat} {Q : Line → Prop} (hQ : ∀ l, GoodLine l → Q l) (hr : ReadContract P T k)
+    (hb : BodyQ Q P T k) (cp : Bool) : ∀ (xs : List SVal), inFragListP P xs = true → ∀ (d : Nat) (lvb : Bool),
+    AllLay (laySeqItem T k cp d lvb xs).1 ∧ AllQ Q (laySeqItem T k cp d lvb xs).2.1
+  | [], _, d, lvb => by simp only [laySeqItem]; exact ⟨allLay_lit _ (by decide), allQ_nil⟩
+  | x :: xs', hv, d, lvb => by
+    simp only [inFragListP, Bool.and_eq_true] at hv
+    obtain ⟨h1, h2⟩ := lay_item_good hQ hr hb cp x hv.1 (d + 2) lvb
+    have h3 := lay_items_good hQ hr hb cp xs' hv.2 (d + 2) (layItem T k cp (d + 2) lvb x).2.2
+    simp only [laySeqItem]
+    exact ⟨(allLay_lit ['-', ' '] (by decide)).append h1, h2.append h3⟩
+theorem lay_mapItem_good {P : LeafPred} {T : Toks} {k : Nat} {Q : Line → Prop} (hQ : ∀ l, GoodLine l → Q l) (hr : ReadContract P T k)
+    (hb : BodyQ Q P T k) (cp : Bool) : ∀ (es : List (SVal × SVal)), inFragEntriesP P es = true → ∀ (d : Nat) (lvb : Bool),
+    AllLay (layMapItem T k cp d lvb es).1 ∧ AllQ Q (layMapItem T k cp d lvb es).2.1
+  | [], _, d, lvb => by simp only [layMapItem]; exact ⟨allLay_lit _ (by decide), allQ_nil⟩
+  | (kk, v) :: es', hv, d, lvb => by
+    simp only [inFragEntriesP, Bool.and_eq_true, Bool.or_eq_true] at hv
+    rcases hv.1.1 with hsk | hck
+    · obtain ⟨kt, rfl, hkt⟩ := keyOk_iff hsk
+      cases hfit : fitsImplicit (T.key kt)
+      · obtain ⟨h1, h2⟩ := lay_item_good hQ hr hb cp v hv.1.2 (d + 2) false
+        have h3 := lay_entries_good hQ hr hb cp es' hv.2 (d + 2) (layItem T k cp (d + 2) false v).2.2
+        simp only [layMapItem, keyOf, hfit, Bool.false_eq_true, if_false]
+        refine ⟨(allLay_lit ['?', ' '] (by decide)).append (allLay_key (hr.key kt hkt)), ?_⟩
+        have := AllQ.cons (hQ _ (colonLine_good (i := d + 2) h1)) (h2.append h3)
+        simpa [List.append_assoc] using this
+      · obtain ⟨h1, h2⟩ := lay_val_good hQ hr hb cp true v hv.1.2 (d + 2) false
+        have h3 := lay_entries_good hQ hr hb cp es' hv.2 (d + 2) (layVal T k cp true (d + 2) false v).2.2
+        simp only [layMapItem, keyOf, hfit, if_true]
+        exact ⟨((allLay_key (hr.key kt hkt)).append (allLay_lit [':'] (by decide))).append h1, h2.append h3⟩
+    · obtain ⟨hk1, hk2⟩ := lay_item_good hQ hr hb cp kk hck.2 (d + 2) false
+      obtain ⟨h1, h2⟩ := lay_item_good hQ hr hb cp v hv.1.2 (d + 2) false
+      have h3 := lay_entries_good hQ hr hb cp es' hv.2 (d + 2) (layItem T k cp (d + 2) false v).2.2
+      simp only [layMapItem, keyOf_complex' kk hck.1]
+      refine ⟨(allLay_lit ['?', ' '] (by decide)).append hk1, ?_⟩
+      have := hk2.append (AllQ.cons (hQ _ (colonLine_good (i := d + 2) h1)) (h2.append h3))
+      simpa [List.append_assoc] using this
 theorem lay_items_good {P : LeafPred} {T : Toks} {k : Nat} {Q : Line → Prop} (hQ : ∀ l, GoodLine l → Q l) (hr : ReadContract P T k)
     (hb : BodyQ Q P T k) (cp : Bool) : ∀ (xs : List SVal), inFragListP P xs = true → ∀ (d : Nat) (lvb : Bool),
     AllQ Q (layItems T k cp d lvb xs).1
@@ -304,10 +335,15 @@ theorem lay_entries_good {P : LeafPred} {T : Toks} {k : Nat} {Q : Line → Prop}
     simp only [inFragEntriesP, Bool.and_eq_true, Bool.or_eq_true] at hv
     rcases hv.1.1 with hsk | hck
     · obtain ⟨kt, rfl, hkt⟩ := keyOk_iff hsk
-      obtain ⟨h1, h2⟩ := lay_val_good hQ hr hb cp true v hv.1.2 m lvb
-      have h3 := lay_entries_good hQ hr hb cp es hv.2 m (layVal T k cp true m lvb v).2.2
-      simp only [layEntries, keyOf, List.cons_append, List.nil_append, List.append_assoc, List.singleton_append]
-      exact AllQ.cons (hQ _ (keyLine_good (hr.key kt hkt) h1)) (h2.append h3)
+      cases hfit : fitsImplicit (T.key kt)
+      · obtain ⟨h1, h2⟩ := lay_item_good hQ hr hb cp v hv.1.2 m false
+        have h3 := lay_entries_good hQ hr hb cp es hv.2 m (layItem T k cp m false v).2.2
+        simp only [layEntries, keyOf, hfit, Bool.false_eq_true, if_false, List.cons_append, List.nil_append, List.append_assoc]
+        exact AllQ.cons (hQ _ (questionLine_good (allLay_key (hr.key kt hkt)))) (AllQ.cons (hQ _ (colonLine_good h1)) (h2.append h3))
+      · obtain ⟨h1, h2⟩ := lay_val_good hQ hr hb cp true v hv.1.2 m lvb
+        have h3 := lay_entries_good hQ hr hb cp es hv.2 m (layVal T k cp true m lvb v).2.2
+        simp only [layEntries, keyOf, hfit, if_true, List.cons_append, List.nil_append, List.append_assoc, List.singleton_append]
+        exact AllQ.cons (hQ _ (keyLine_good (hr.key kt hkt) h1)) (h2.append h3)
     · obtain ⟨hk1, hk2⟩ := lay_item_good hQ hr hb cp kk hck.2 m lvb
       obtain ⟨h1, h2⟩ := lay_item_good hQ hr hb cp v hv.1.2 m false
       have h3 := lay_entries_good hQ hr hb cp es hv.2 m (layItem T k cp m false v).2.2
@@ -536,19 +572,31 @@ theorem root_seq {P : LeafPred} {T : Toks} {k : Nat} {cp : Bool} (hr : ReadContr
     rw [blockNode_dash f' 0 none 0 _ hh (by omega), hi]
     rfl
 
-theorem root_variant {N n : List Char} (hn : KeyTok N n) {r : List Char × List Line × Bool} {p : PVal}
+theorem root_variant {N n : List Char} (hn : KeyTok N n) {r : List Char × List Line × Bool} {ri : Nat → Bool → List Char × List Line × Bool} {p : PVal}
     (hh : ValHead r.1) (hg : AllLay r.1 ∧ AllGood r.2.1)
-    (hr : ∀ fuel klen, fuel ≥ 2 * (r.1.length + 1 + mu r.2.1) + 2 → valueParse fuel 0 klen r.1 r.2.1 = some (p, [])) :
-    RootOK (⟨0, N ++ [':'] ++ r.1⟩ :: r.2.1) (.map [(.str n, p)]) := by
-  simp only [List.append_assoc, List.singleton_append]
-  refine ⟨AllGood.cons (keyLine_good hn hg.1) hg.2, FirstLine.ofGood (keyLine_good hn hg.1) _, ?_⟩
-  intro fuel hf
-  simp only [mu, List.length_append, List.length_cons] at hf
-  obtain ⟨f', rfl⟩ : ∃ f', fuel = f' + 3 := ⟨fuel - 3, by omega⟩
-  have ih := hr (f' + 1) (N.length + 1) (by omega)
-  rw [show f' + 3 = (f' + 1 + 1) + 1 from rfl, blockNode_key (f' + 1 + 1) 0 none 0 _ hn hh (by omega),
-    blockMap_cons (f' + 1) 0 _ hn hh, ih]
-  simp [blockMap_end f' 0 (Or.inl rfl), hasDupKey]
+    (hr : ∀ fuel klen, fuel ≥ 2 * (r.1.length + 1 + mu r.2.1) + 2 → valueParse fuel 0 klen r.1 r.2.1 = some (p, []))
+    (hhi : ItemHead (ri 0 false).1) (hgi : AllLay (ri 0 false).1 ∧ AllGood (ri 0 false).2.1) (hri : ReadsItem ri p) :
+    RootOK (variantRoot N r (ri 0 false)) (.map [(.str n, p)]) := by
+  refine ⟨variantRoot_good (fun _ h => Or.inl h) hn hg hgi, ?_, ?_⟩
+  · cases hfit : fitsImplicit N
+    · simp only [variantRoot, hfit, Bool.false_eq_true, if_false, List.cons_append, List.nil_append]
+      exact FirstLine.ofGood (questionLine_good (allLay_key hn)) _
+    · simp only [variantRoot, hfit, if_true, List.append_assoc, List.singleton_append]
+      exact FirstLine.ofGood (keyLine_good hn hg.1) _
+  · intro fuel hf
+    cases hfit : fitsImplicit N
+    · simp only [variantRoot, hfit, Bool.false_eq_true, if_false, List.cons_append, List.nil_append, mu, List.length_cons] at hf ⊢
+      obtain ⟨f', rfl⟩ : ∃ f', fuel = f' + 3 := ⟨fuel - 3, by omega⟩
+      have ih := hri (f' + 1) 0 (some 0) false [] (by omega) (Or.inl rfl)
+      have := blockNode_explicitVariant f' 0 none 0 hn hhi [] (by omega) (by omega) (by simpa using ih) (Or.inl rfl)
+      simpa using this
+    · simp only [variantRoot, hfit, if_true, List.append_assoc, List.singleton_append] at hf ⊢
+      simp only [mu, List.length_append, List.length_cons] at hf
+      obtain ⟨f', rfl⟩ : ∃ f', fuel = f' + 3 := ⟨fuel - 3, by omega⟩
+      have ih := hr (f' + 1) (N.length + 1) (by omega)
+      rw [show f' + 3 = (f' + 1 + 1) + 1 from rfl, blockNode_key (f' + 1 + 1) 0 none 0 _ hn hh (by omega),
+        blockMap_cons (f' + 1) 0 _ hn hh hfit, ih]
+      simp [blockMap_end f' 0 (Or.inl rfl), hasDupKey]
 
 /-- a `ReadsVal` statement at the root (`m = 0`, nothing after the node) -/
 theorem ReadsVal.root {r : Nat → Bool → Bool → List Char × List Line × Bool} {p : PVal} (h : ReadsVal r p) (fuel klen : Nat)
@@ -606,18 +654,25 @@ theorem root_lines {P : LeafPred} {T : Toks} {k : Nat} {cp : Bool} (hr : ReadCon
   | .newtypeStruct v, hv => by simp only [inFragP] at hv; simpa [layRoot, erase] using root_lines hr hk v hv
   | .newtypeVariant n v, hv => by
     simp only [inFragP, Bool.and_eq_true] at hv
-    simpa [layRoot, erase, RootOK] using root_variant (hr.name n hv.1) (r := layVal T k cp false 0 false v) (valHead_layVal hr cp false v hv.2 0 false)
+    simpa [layRoot, erase, RootOK] using root_variant (hr.name n hv.1) (r := layVal T k cp false 0 false v)
+      (ri := fun c lvb => layItem T k cp c lvb v) (valHead_layVal hr cp false v hv.2 0 false)
       (lay_val_good (Q := LayLine) (fun _ h => Or.inl h) hr hr.layBody cp false v hv.2 0 false) (fun fuel klen hf => (read_val (cp := cp) hr hk v hv.2).root fuel klen hf)
+      (itemHead_layItem hr cp v hv.2 0 false) (lay_item_good (Q := LayLine) (fun _ h => Or.inl h) hr hr.layBody cp v hv.2 0 false) (read_item hr hk v hv.2)
   | .tupleVariant n xs, hv => by
     simp only [inFragP, Bool.and_eq_true] at hv
     simpa [layRoot, erase, RootOK] using root_variant (hr.name n hv.1) (r := seqValOf xs.isEmpty (layItems T k cp k false xs).1)
+      (ri := fun c lvb => laySeqItem T k cp c lvb xs)
       (seqValOf_head _ _) (seqValOf_good _ (lay_items_good (Q := LayLine) (fun _ h => Or.inl h) hr hr.layBody cp xs hv.2 k false))
       (fun fuel klen hf => by simpa [seqCol] using (reads_seqVal (cp := cp) hr hk hv.2 (read_items hr hk xs hv.2)).root fuel klen (by simpa [seqCol] using hf))
+      (laySeqItem_head T k cp 0 false xs) (lay_seqItem_good (Q := LayLine) (fun _ h => Or.inl h) hr hr.layBody cp xs hv.2 0 false) (reads_seqItem hr hv.2 (read_items hr hk xs hv.2))
   | .structVariant n fs, hv => by
     simp only [inFragP, Bool.and_eq_true, decide_eq_true_eq] at hv
     simpa [layRoot, erase, RootOK] using root_variant (hr.name n hv.1) (r := mapValOf k false fs.isEmpty (layEntries T k cp k false fs).1)
+      (ri := fun c lvb => layMapItem T k cp c lvb fs)
       (mapValOf_head _ _ _ _) (mapValOf_good (fun _ h => Or.inl h) _ _ _ (lay_entries_good (Q := LayLine) (fun _ h => Or.inl h) hr hr.layBody cp fs hv.2.1 k false))
       (fun fuel klen hf => by simpa using (reads_mapVal (cp := cp) hr hk hv.2.1 (by simpa using hv.2.2) (read_entries hr hk fs hv.2.1)).root fuel klen (by simpa using hf))
+      (layMapItem_head hr cp hv.2.1 (by simpa using hv.2.2) 0 false) (lay_mapItem_good (Q := LayLine) (fun _ h => Or.inl h) hr hr.layBody cp fs hv.2.1 0 false)
+      (reads_mapItem hr hv.2.1 (by simpa using hv.2.2) (read_entries hr hk fs hv.2.1))
   | .seq xs, hv => by
     simp only [inFragP] at hv
     simpa [layRoot, erase, RootOK] using root_seq hr hk hv
@@ -675,19 +730,18 @@ theorem layRoot_good {P : LeafPred} {T : Toks} {k : Nat} {Q : Line → Prop} (hQ
   | .newtypeStruct v, hv => by simp only [inFragP] at hv; simpa [layRoot] using layRoot_good hQ hr hb cp v hv
   | .newtypeVariant n v, hv => by
     simp only [inFragP, Bool.and_eq_true] at hv
-    obtain ⟨h1, h2⟩ := lay_val_good hQ hr hb cp false v hv.2 0 false
-    simp only [layRoot, List.append_assoc, List.singleton_append]
-    exact AllQ.cons (hQ _ (keyLine_good (hr.name n hv.1) h1)) h2
+    simp only [layRoot]
+    exact variantRoot_good hQ (hr.name n hv.1) (lay_val_good hQ hr hb cp false v hv.2 0 false) (lay_item_good hQ hr hb cp v hv.2 0 false)
   | .tupleVariant n xs, hv => by
     simp only [inFragP, Bool.and_eq_true] at hv
-    obtain ⟨h1, h2⟩ := seqValOf_good xs.isEmpty (lay_items_good hQ hr hb cp xs hv.2 k false)
-    simp only [layRoot, List.append_assoc, List.singleton_append]
-    exact AllQ.cons (hQ _ (keyLine_good (hr.name n hv.1) h1)) h2
+    simp only [layRoot]
+    exact variantRoot_good hQ (hr.name n hv.1) (seqValOf_good xs.isEmpty (lay_items_good hQ hr hb cp xs hv.2 k false))
+      (lay_seqItem_good hQ hr hb cp xs hv.2 0 false)
   | .structVariant n fs, hv => by
     simp only [inFragP, Bool.and_eq_true] at hv
-    obtain ⟨h1, h2⟩ := mapValOf_good hQ k false fs.isEmpty (lay_entries_good hQ hr hb cp fs hv.2.1 k false)
-    simp only [layRoot, List.append_assoc, List.singleton_append]
-    exact AllQ.cons (hQ _ (keyLine_good (hr.name n hv.1) h1)) h2
+    simp only [layRoot]
+    exact variantRoot_good hQ (hr.name n hv.1) (mapValOf_good hQ k false fs.isEmpty (lay_entries_good hQ hr hb cp fs hv.2.1 k false))
+      (lay_mapItem_good hQ hr hb cp fs hv.2.1 0 false)
   | .seq xs, hv => by
     simp only [inFragP] at hv
     cases xs with
